@@ -73,6 +73,20 @@ def run(ctx):
                 t.fmt_l = f.fmt
                 twins.append(t)
     pool += twins
+    # files that leave parser state behind (open disabled region, open #if, CR line ends, BOM ...): a delivery
+    # mode that handles several files in one process must still deliver the reference bytes for each
+    from .c11 import REPS
+    d = os.path.join(root, "reps")
+    os.makedirs(d, exist_ok=True)
+    for n, src in sorted(REPS.items()):
+        name = "r_" + n
+        rc, fmt = drv.ref_format(unc, cfg, name, src, cwd=d)
+        rc2, fmt2 = drv.ref_format(unc, cfg, name, src, lang=corpus.lang_of(name), cwd=d)
+        if rc == 0 and rc2 == 0 and src:
+            f = drv.FileSpec(name, src, fmt, "fmt" if fmt == src else "unf", corpus.lang_of(name))
+            f.orig = "rep:" + n
+            f.fmt_l = fmt2
+            pool.append(f)
     bycls = {"fmt": [f for f in pool if f.cls == "fmt"], "unf": [f for f in pool if f.cls == "unf"]}
     mism = [f.orig for f in pool if f.fmt_l != f.fmt]
     reps = 1 if quick else 4
@@ -91,7 +105,8 @@ def run(ctx):
                 if not cand:
                     ok = False
                     break
-                fs.append(ctx.rng.choice(cand))
+                rp = [f for f in cand if f.orig.startswith("rep:")]
+                fs.append(ctx.rng.choice(rp) if rp and len(inv["files"]) > 1 and ctx.rng.random() < 0.5 else ctx.rng.choice(cand))
             if not ok:
                 continue
             obs = [o for o in OBS if ctx.rng.random() < 0.3]
